@@ -13,16 +13,21 @@ from . import c02
 MODULE = 'Sbepp.Properties.C04'
 THEOREMS = [
     'Sbepp.Properties.C04.cursor_abs_eq_random',
+    'Sbepp.Properties.C04.compiled_accessors',
     'Sbepp.Properties.C04.cursor_rel_chain',
     'Sbepp.Properties.C04.cursor_step_field',
     'Sbepp.Properties.C04.cursor_step_set',
     'Sbepp.Properties.C04.cursor_step_group',
     'Sbepp.Properties.C04.cursor_step_data',
     'Sbepp.Properties.C04.cursor_step',
+    'Sbepp.Properties.C04.cursor_step_protocol',
+    'Sbepp.Properties.C04.protocol_geometry_is_image_geometry',
     'Sbepp.Properties.C04.cursor_wrong_position_reported',
     'Sbepp.Properties.C04.cursor_traversal_end_partial',
-    'Sbepp.Properties.C04.cursor_traversal_end_full_false',
+    'Sbepp.Properties.C04.cursor_entry_traversal_end',
     'Sbepp.Properties.C04.cursor_traversal_end_image',
+    'Sbepp.Properties.C04.cursor_traversal_end_schema',
+    'Sbepp.Properties.C04.cursor_traversal_end_full_false',
 ]
 
 MOVING = ('plain', 'init', 'skip')
@@ -332,10 +337,12 @@ class CursorRun:
         self.run = run
         self.clayouts = {}
         self.drivers = {}
+        self.unchecked = {}
         self.stats = {'cursor_requests': 0, 'cursor_calls': 0, 'layerG_accessors': 0, 'c04_driver_builds': 0,
                       'scripts_legal': 0, 'scripts_injected': 0, 'scripts_exhaustive': 0, 'scripts_subrange': 0,
                       'spec_unspecified': 0, 'asserts_expected': 0}
         self.outcomes = {}
+        self.distinct = set()
 
     # -- layouts, Layer G, drivers
     def prepare(self):
@@ -356,15 +363,20 @@ class CursorRun:
             self.clayouts[c.idx] = lay
             good.append(c)
             self.layer_g(c, lay)
-        jobs = [(c, cxx, std) for c in good for (cxx, std) in run.configs]
+        # checked builds under every configuration; one build with assertions compiled out (legal sequences only)
+        jobs = [(c, cxx, std, True) for c in good for (cxx, std) in run.configs]
+        jobs += [(c, run.configs[0][0], run.configs[0][1], False) for c in good]
 
         def build(job):
-            c, cxx, std = job
-            exe, log = G.build_driver(c, self.clayouts[c.idx], cxx, std)
+            c, cxx, std, checked = job
+            exe, log = G.build_driver(c, self.clayouts[c.idx], cxx, std, checked)
             return job, exe, log
         with cf.ThreadPoolExecutor(core.NPROC) as ex:
-            for (c, cxx, std), exe, log in ex.map(build, jobs):
+            for (c, cxx, std, checked), exe, log in ex.map(build, jobs):
                 self.stats['c04_driver_builds'] += 1
+                if exe is not None and not checked:
+                    self.unchecked[(c.idx, cxx, std)] = exe
+                    continue
                 if exe is None:
                     chk.report_failure({'kind': 'generated cursor accessors do not compile',
                                         'config': {'cxx': cxx, 'std': std}, 'schema_xml': open(c.xml).read(),
@@ -391,15 +403,16 @@ class CursorRun:
                                     'case': {'what': 'cursor-accessor-constants', 'member': name}})
 
     # -- execution
-    def execute(self, kind, jobs):
+    def execute(self, kind, jobs, checked=True):
         """jobs: (case, msg clayout, value, start, [scripts]) -> compares impl/model/spec per script"""
         chk, run = self.chk, self.run
         if not jobs:
             return []
         reqs = []
+        drivers = self.drivers if checked else self.unchecked
         for (c, m, v, start, scripts) in jobs:
-            reqs.append('cursor (req %s (msg %s) (value %s) (start %s) %s)' % (
-                c.sexp, m['name'], wire.mval_sexp(v), start,
+            reqs.append('cursor (req %s (msg %s) (value %s) (start %s)%s %s)' % (
+                c.sexp, m['name'], wire.mval_sexp(v), start, '' if checked else ' (checks off)',
                 ' '.join('(calls %s)' % G.items_sexp(s) for s in scripts)))
         mouts = run.model_lines(reqs)
         per_driver = {}
@@ -412,7 +425,7 @@ class CursorRun:
                 continue
             parsed.append((head, outs))
             for (cxx, std) in run.configs:
-                exe = self.drivers.get((c.idx, cxx, std))
+                exe = drivers.get((c.idx, cxx, std))
                 if exe:
                     lst = per_driver.setdefault((exe, cxx, std), [])
                     for si, s in enumerate(scripts):
@@ -428,7 +441,7 @@ class CursorRun:
                 head, mks = parsed[ji]
                 mk = mks[si]
                 ik = W.kvs(io)
-                self.judge(kind, c, m, v, start, scripts[si], line, ik, mk, head, cxx, std)
+                self.judge(kind, c, m, v, start, scripts[si], line, ik, mk, head, cxx, std + ('' if checked else ' unchecked'))
                 results.setdefault((ji, si), ik.get('st'))
         return results
 
@@ -441,6 +454,7 @@ class CursorRun:
         impl, model, spec = ik.get('ev', ''), mk.get('model', ''), mk.get('spec', '')
         st = ik.get('st')
         self.outcomes[st] = self.outcomes.get(st, 0) + 1
+        self.distinct.add((c.idx, m['name'], head['image'], start, line))
         unspec = spec.endswith('UNSPEC')
         if unspec:
             self.stats['spec_unspecified'] += 1
@@ -455,17 +469,28 @@ class CursorRun:
             spec_ok = False
         base = {'config': {'cxx': cxx, 'std': std}, 'schema_xml': open(c.xml).read(), 'message': m['name'],
                 'image': head['image'], 'start': start, 'script': G.items_sexp(script), 'driver_line': line,
-                'model_request': 'cursor (req %s (msg %s) (value %s) (start %s) (calls %s))' % (
-                    c.sexp, m['name'], wire.mval_sexp(v), start, G.items_sexp(script)),
+                'model_request': 'cursor (req %s (msg %s) (value %s) (start %s)%s (calls %s))' % (
+                    c.sexp, m['name'], wire.mval_sexp(v), start, ' (checks off)' if std.endswith('unchecked') else '',
+                    G.items_sexp(script)),
                 'observed': {'impl': impl, 'impl_status': st, 'spec': spec, 'model': model, 'mfail': mk.get('mfail')}}
         if not spec_ok:
             case = {'what': 'cursor-calls', 'stream': kind, 'status': st, 'cxx': cxx, 'std': std,
                     'root_members': len(G.members(m['level']))}
             case.update(diagnose(m['level'], impl, spec if not unspec else spec[:-len(';UNSPEC')]))
             chk.report_failure(dict(base, kind='impl≠spec', case=case))
+        elif unspec:
+            # the model stops where the specification becomes silent (an entry created from a cursor that is not
+            # at an entry start: what follows reads arbitrary bytes as headers and lengths)
+            if not model.endswith('UNSPEC') or not impl.startswith(model[:-len('UNSPEC')]):
+                self.stats['impl_ne_model'] = self.stats.get('impl_ne_model', 0) + 1
+                if self.stats['impl_ne_model'] <= 5:
+                    chk.report_unproved('impl≠model (implementation agrees with the specification)',
+                                        dict(base, diff=first_diff(impl, model)))
         elif impl != model or (wrote and st == 'ok' and ik.get('buf') != mk.get('mbuf')):
-            chk.report_unproved('impl≠model (implementation agrees with the specification)',
-                                dict(base, diff=first_diff(impl, model)))
+            self.stats['impl_ne_model'] = self.stats.get('impl_ne_model', 0) + 1
+            if self.stats['impl_ne_model'] <= 5:
+                chk.report_unproved('impl≠model (implementation agrees with the specification)',
+                                    dict(base, diff=first_diff(impl, model)))
         if len(chk.cov['samples']) < 6 and ncalls >= 3:
             chk.sample({'stream': kind, 'message': m['name'], 'script': G.items_sexp(script)[:300],
                         'spec': spec[:300], 'impl_status': st})
@@ -521,6 +546,7 @@ def cursor_check(chk, run, cr, cases):
                     small.append((c, m, v, rng))
     chk.log('cursor scripts: %d legal, %d injected, %d subrange' % (cr.stats['scripts_legal'], cr.stats['scripts_injected'], cr.stats['scripts_subrange']))
     res = cr.execute('legal', legal_jobs)
+    cr.execute('legal-unchecked', legal_jobs, checked=False)
     chk.log('legal traversals done')
     # a complete legal traversal must end at the end of the message
     check_traversal_end(chk, cr, legal_jobs)
@@ -585,6 +611,34 @@ def check_traversal_end(chk, cr, legal_jobs):
                                 {'message': m['name'], 'final': fin, 'size': size, 'script': G.items_sexp(scripts[0])})
 
 
+def sites_check(chk, run):
+    """the assertion / size-check sites of the five cursor classes, read from the current sbepp.hpp, against the
+    table obtained by probing the model functions, and against what the property demands"""
+    import sys
+    sys.path.insert(0, core.VERIF)
+    from extract import cursor_sites
+    rep = cursor_sites.extract(core.REPO, os.path.join(core.LEAN, 'Sbepp', 'Extracted'))
+    chk.cov['cursor_sites_extracted'] = len(rep.get('sites', {}))
+    if rep.get('failed'):
+        chk.report_unproved('extraction', {'extractor': 'cursor_sites', 'failed': rep['failed']})
+        return
+    model = json.loads(run.model_lines(['cursor (sites)'])[0])
+    need = ('cursor', 'dont_move_cursor_wrapper', 'skip_cursor_wrapper')
+    for k, site in sorted(rep['sites'].items()):
+        cls, meth = k.split('::')
+        required = cls in need and not meth.startswith('get_first_')
+        if required and not site['assert']:
+            chk.report_failure({'kind': 'impl≠spec', 'what': 'a cursor method that relies on the cursor position has no '
+                                '"Wrong cursor value" assertion', 'site': k, 'line_of_class': rep['where'].get(cls),
+                                'case': {'what': 'cursor-assert-site', 'site': k}})
+        elif site != model.get(k):
+            chk.report_unproved('impl≠model: assertion/size-check site of a cursor method',
+                                {'site': k, 'impl': site, 'model': model.get(k)})
+    for k in model:
+        if k not in rep['sites']:
+            chk.report_unproved('impl≠model: cursor method of the model not found in sbepp.hpp', {'site': k})
+
+
 def add_directed(chk, run):
     """compile the directed schemas like WireRun.gen_cases does for generated ones"""
     extra = []
@@ -618,11 +672,15 @@ def run(chk):
     if chk.tier == 'thorough' and proved:
         chk.leanchecker(MODULE)
     quick = chk.tier == 'quick'
-    n = 14 if quick else 90
-    run = W.WireRun(chk, n, W.configs_for(chk.tier), values_per_msg=2 if quick else 4, ext=True, seed_salt=4)
+    n = 14 if quick else 60
+    # the cursor classes fork on no feature macro besides constexpr-ness: two compilers x old/new standards
+    configs = W.configs_for('quick') if quick else [('g++', 'c++11'), ('g++', 'c++20'), ('clang++-14', 'c++14'),
+                                                     ('clang++-14', 'c++17')]
+    run = W.WireRun(chk, n, configs, values_per_msg=2 if quick else 4, ext=True, seed_salt=4)
     cr = None
     try:
         if run.prepare():
+            sites_check(chk, run)
             run.gen_cases()
             directed = add_directed(chk, run)
             run.cases = run.cases + directed
@@ -647,6 +705,7 @@ def run(chk):
     if cr is not None:
         chk.cov['run_stats'].update(cr.stats)
         chk.cov['impl_outcomes'] = cr.outcomes
+        chk.cov['distinct_nontrivial'] += len(cr.distinct)
     if chk.failed_obligations and not chk.violations:
         chk.report_unproved('theorem', chk.failed_obligations)
     chk.assumptions += [
@@ -683,7 +742,8 @@ def replay(chk, rep):
         c.dir = d
         c.s = {'package': 'vs'}
         cfg = rep.get('config', {'cxx': 'g++', 'std': 'c++17'})
-        drv, log = G.build_driver(c, lay, cfg['cxx'], cfg['std'])
+        checked = not cfg['std'].endswith(' unchecked')
+        drv, log = G.build_driver(c, lay, cfg['cxx'], cfg['std'].split()[0], checked)
         if drv is None:
             print(log[-2000:])
             return 1
